@@ -41,17 +41,22 @@ Cat == <<
   E("n", "unit", "P", "str", 1),      E("n", "value", "B", "float", 13),  E("n", "value", "B", "float", 15),
   \* accessibles declared optional in the base class: not implemented (ou, od) / implemented (oi, oc)
   E("ou", "value", "B", "int", 6),    E("ou", "max", "P", "int", 20),     E("od", "visibility", "P", "int", 4),
-  E("oi", "value", "B", "int", 10),   E("oi", "max", "P", "int", 120),    E("oc", "visibility", "P", "int", 4) >>
-BaseEntries == {E("mp", "value", "B", "int", 6), E("n", "value", "B", "int", 10)}
+  E("oi", "value", "B", "int", 10),   E("oi", "max", "P", "int", 120),    E("oc", "visibility", "P", "int", 4),
+  \* required values: only a default given / a constant given / limits only
+  E("r1", "default", "P", "int", 6),  E("r2", "default", "P", "int", 8),  E("n", "default", "P", "int", 8),
+  E("r1", "constant", "P", "int", 6), E("r2", "max", "P", "int", 120) >>
+BaseEntries == {E("mp", "value", "B", "int", 6), E("n", "value", "B", "int", 10),
+                E("r1", "value", "B", "int", 4), E("r2", "value", "P", "int", 6)}
+Required == {"mp", "n", "r1", "r2"}
 
 Chosen == {Cat[j] : j \in sel}
 Cfg == Chosen \cup {b \in BaseEntries : b.par \notin miss /\ ~Has(Chosen, b.par, b.prop)}
 
-GInit == sel = {} /\ miss \in SUBSET {"mp", "n"} /\ last = 0
+GInit == sel = {} /\ miss \in {S \in SUBSET Required : Cardinality(S) <= 1} \cup {{"mp", "n"}, {"r1", "r2"}} /\ last = 0
 GNext == \E j \in last + 1 .. Len(Cat) :
            /\ Cardinality(sel) < (IF miss = {} THEN MaxExtra ELSE MaxExtraWhenMissing)
            /\ ~Has(Chosen, Cat[j].par, Cat[j].prop)
-           /\ Cat[j].par \notin miss
+           /\ (Cat[j].par \in miss => Cat[j].prop # "value")      \* (e.g. only a default given for a required value)
            /\ sel' = sel \cup {j} /\ last' = j /\ UNCHANGED miss
 GSpec == GInit /\ [][GNext]_<<sel, miss, last>>
 
